@@ -163,6 +163,30 @@ fn main() {
     match 1 { "a" => 1, true => 2, _ => 3 };
 }
 `}},
+	{Name: "try-catch-in-a-library-whose-parameters-are-named-like-globals-elsewhere", Mods: map[string]string{
+		"main": `import { safe_div, describe } from mathlib;
+let total = 100;
+let parts = 4;
+let e = "main-e";
+fn share() -> int { total / parts }
+fn label() -> str { "main-label" }
+fn main() {
+    println(safe_div(10, 0), safe_div(9, 3));
+    println(share(), total, parts, e);
+    println(describe(2), label());
+}
+`,
+		"mathlib": `let scale = 2;
+pub fn safe_div(total: int, parts: int) -> int {
+    let share = 7;
+    try { if parts == 0 { throw("no parts"); } total / parts * scale } catch e { println("caught:", e.message); 0 - share }
+}
+pub fn describe(label: int) -> str {
+    let r = try { if label > 1 { throw("big"); } "small" } catch total { "caught " + total.message };
+    r
+}
+fn main() { }
+`}},
 	{Name: "singletons-two", Tree: true, Mods: map[string]string{"main": `$A = { n: int, s: str };
 $B = { m: int };
 fn f(a: $A, b: $B) -> int { a.n = 3; b.m = 4; a.n * 10 + b.m }
